@@ -634,6 +634,16 @@ class HandshakeSettings(object):
                 other.maxVersion >= (3, 3):
             raise ValueError("TLS 1.2 requires signature algorithms to be set")
 
+        # TLS 1.3 knows no SHA-1 or SHA-224 signatures: with nothing else
+        # enabled and no older version to fall back to, not a single
+        # signature algorithm could be advertised
+        tls13_hashes = ("sha256", "sha384", "sha512")
+        if other.minVersion >= (3, 4) and not other.more_sig_schemes and \
+                not any(i in tls13_hashes for i in other.rsaSigHashes) and \
+                not any(i in tls13_hashes for i in other.ecdsaSigHashes):
+            raise ValueError("TLS 1.3 requires a SHA-256, SHA-384 or SHA-512 "
+                             "(or EdDSA) signature algorithm to be enabled")
+
     @staticmethod
     def _sanityCheckProtocolVersions(other):
         """Check if set protocol version are sane"""
